@@ -472,6 +472,8 @@ def check(run):
     check_dropped_sanitisers(run, A, ('pb_bss.extraction.beamformer', 'pb_bss.math.solve'))
     check_argument_names(run, A, ('pb_bss.extraction.beamformer', 'pb_bss.math.solve'))
     check_stale_loop_variables(run, A, ('pb_bss.extraction.beamformer', 'pb_bss.math.solve'))
+    from ..opt import check_extent_loops
+    check_extent_loops(run, A, ('pb_bss.extraction.beamformer', 'pb_bss.math.solve'))
     check_forwarding(run, A, ('pb_bss.extraction.beamformer', 'pb_bss.math.solve'))
     check_params_reach(run, A, ('pb_bss.extraction.beamformer', 'pb_bss.math.solve'))
     check_optional_truthiness(run, A, ('pb_bss.extraction.beamformer', 'pb_bss.math.solve'))
